@@ -61,7 +61,8 @@ def kvFacts (R : Route) (σ : St) (t : Thread) : Prop :=
   | .delP cerr => t.op = .del ∧ R.pe = true ∧ cerr = false ∧ (σ.cell R.ck).val = none ∧
       t.cver = none ∧ t.rver = none ∧ t.res = none ∧ t.inv.isSome = true
   | .done => t.res.isSome = true ∧ t.inv.isSome = true ∧ t.ret.isSome = true ∧
-      (t.res = some .ok → t.cver.isSome = true) ∧ (t.rver = none → isW t.op ∨ t.res = some .err)
+      (t.res = some .ok → t.cver.isSome = true) ∧ (t.rver = none → isW t.op ∨ t.res = some .err) ∧
+      (t.cver.isSome = true → t.res = some .ok)
   | _ => False
 
 /-- Freshness of a recorded read w.r.t. a returned write. -/
@@ -662,7 +663,7 @@ theorem kstep_get_start (hop : th.op = .get) (hpc : th.pc = .start) :
         fun j w n hw _ hr hn => hsrc j w n hw hr hn⟩
       lock := Or.inr (Or.inr ⟨noCS_done, noCS_start hpc, rfl⟩)
       ck := fun _ _ _ => Or.inl rfl
-      facts := by simp [kvFacts, finish, th0] }
+      facts := by simp [kvFacts, finish, th0, hcv] }
   | none =>
     simp only
     by_cases hc : (R.pe && !R.passErr) = true
@@ -695,7 +696,7 @@ theorem kstep_get_start (hop : th.op = .get) (hpc : th.pc = .start) :
           fun j w n hw _ _ hn => by rw [hver]; exact (h.cvr j w hw n hn).2.1⟩
         lock := Or.inr (Or.inr ⟨noCS_done, noCS_start hpc, rfl⟩)
         ck := fun _ _ _ => Or.inl rfl
-        facts := by simp [kvFacts, finish, th0] }
+        facts := by simp [kvFacts, finish, th0, hcv] }
 
 theorem kstep_get_readP (hop : th.op = .get) (hpc : th.pc = .readP) :
     KStep R init cfg i th (stepThread true R i ft cfg.st (th0 th cfg.now)).st
@@ -723,7 +724,7 @@ theorem kstep_get_readP (hop : th.op = .get) (hpc : th.pc = .readP) :
       rd := Or.inl hrv
       lock := Or.inr (Or.inl ⟨noCS_done, rfl, fun j t _ ht => hoth j t ht, fun hp => by simpa using h.coh hp hlk⟩)
       ck := fun _ _ _ => Or.inl (by simp)
-      facts := by simp [kvFacts, finish, th0, hinv, hrv] }
+      facts := by simp [kvFacts, finish, th0, hcv, hinv, hrv] }
   · have hfp' : fails ft .persistent = false := by simpa using hfp
     simp only [hfp', Bool.false_eq_true, ↓reduceIte]
     cases hp : cfg.st.p.val with
@@ -739,7 +740,7 @@ theorem kstep_get_readP (hop : th.op = .get) (hpc : th.pc = .readP) :
           fun j w n hw _ _ hn => by rw [hpver]; exact (h.cvr j w hw n hn).2.1⟩
         lock := Or.inr (Or.inl ⟨noCS_done, rfl, fun j t _ ht => hoth j t ht, fun hp => by simpa using h.coh hp hlk⟩)
         ck := fun _ _ _ => Or.inl (by simp)
-        facts := by simp [kvFacts, finish, th0] }
+        facts := by simp [kvFacts, finish, th0, hcv] }
     | some v =>
       simp only
       exact {
@@ -784,7 +785,7 @@ theorem kstep_get_wb (hop : th.op = .get) {v : Val} {ver : Nat} (hpc : th.pc = .
       have : v' = v := by simpa using hv'.symm
       subst this
       simpa using hpval)
-    facts := by simp [kvFacts, finish, th0] }
+    facts := by simp [kvFacts, finish, th0, hcv] }
 
 theorem kstep_ex_start (hop : th.op = .ex) (hpc : th.pc = .start) :
     KStep R init cfg i th (stepThread true R i ft cfg.st (th0 th cfg.now)).st
@@ -810,7 +811,7 @@ theorem kstep_ex_start (hop : th.op = .ex) (hpc : th.pc = .start) :
         fun j w n hw _ hr hn => hsrc j w n hw hr hn⟩
       lock := Or.inr (Or.inr ⟨noCS_done, noCS_start hpc, rfl⟩)
       ck := fun _ _ _ => Or.inl rfl
-      facts := by simp [kvFacts, finish, th0] }
+      facts := by simp [kvFacts, finish, th0, hcv] }
   | none =>
     simp only [Option.isSome_none, Bool.false_eq_true, if_false]
     by_cases hc : (R.pe && !R.passErr) = true
@@ -843,7 +844,7 @@ theorem kstep_ex_start (hop : th.op = .ex) (hpc : th.pc = .start) :
           fun j w n hw _ _ hn => by rw [hver]; exact (h.cvr j w hw n hn).2.1⟩
         lock := Or.inr (Or.inr ⟨noCS_done, noCS_start hpc, rfl⟩)
         ck := fun _ _ _ => Or.inl rfl
-        facts := by simp [kvFacts, finish, th0] }
+        facts := by simp [kvFacts, finish, th0, hcv] }
 
 theorem kstep_ex_exP (hop : th.op = .ex) (hpc : th.pc = .exP) :
     KStep R init cfg i th (stepThread true R i ft cfg.st (th0 th cfg.now)).st
@@ -869,7 +870,7 @@ theorem kstep_ex_exP (hop : th.op = .ex) (hpc : th.pc = .exP) :
       rd := Or.inl hrv
       lock := Or.inr (Or.inr ⟨noCS_done, hncs, rfl⟩)
       ck := fun _ _ _ => Or.inl rfl
-      facts := by simp [kvFacts, finish, th0, hinv, hrv] }
+      facts := by simp [kvFacts, finish, th0, hcv, hinv, hrv] }
   · have hfp' : fails ft .persistent = false := by simpa using hfp
     simp only [hfp', Bool.false_eq_true, ↓reduceIte]
     exact {
@@ -881,7 +882,7 @@ theorem kstep_ex_exP (hop : th.op = .ex) (hpc : th.pc = .exP) :
         fun j w n hw _ _ hn => by rw [hpver]; exact (h.cvr j w hw n hn).2.1⟩
       lock := Or.inr (Or.inr ⟨noCS_done, hncs, rfl⟩)
       ck := fun _ _ _ => Or.inl rfl
-      facts := by simp [kvFacts, finish, th0] }
+      facts := by simp [kvFacts, finish, th0, hcv] }
 
 theorem kstep_set_start {v : Val} {ttl : Nat} (hop : th.op = .set v ttl) (hpc : th.pc = .start) :
     KStep R init cfg i th (stepThread true R i ft cfg.st (th0 th cfg.now)).st
@@ -910,7 +911,7 @@ theorem kstep_set_start {v : Val} {ttl : Nat} (hop : th.op = .set v ttl) (hpc : 
         lock := Or.inr (Or.inl ⟨noCS_done, rfl, fun j t _ ht => hoth j t ht,
           fun hp => by simpa [unlock] using h.coh hp hlk⟩)
         ck := fun _ _ _ => Or.inl (by simp [unlock])
-        facts := by simp [kvFacts, finish, th0, hrv]; try exact hW }
+        facts := by simp [kvFacts, finish, th0, hcv, hrv]; try exact hW }
     · have hfp' : fails ft .persistent = false := by simpa using hfp
       simp only [hfp', Bool.false_eq_true, ↓reduceIte]
       exact {
@@ -939,7 +940,7 @@ theorem kstep_set_start {v : Val} {ttl : Nat} (hop : th.op = .set v ttl) (hpc : 
       lock := Or.inr (Or.inl ⟨noCS_done, by simp, fun j t _ ht => hoth j t ht,
         fun hp => by rw [hpe'] at hp; cases hp⟩)
       ck := fun hp => by rw [hpe'] at hp; cases hp
-      facts := by simp [kvFacts, finish, th0, hrv]; try exact hW }
+      facts := by simp [kvFacts, finish, th0, hcv, hrv]; try exact hW }
 
 theorem kstep_set_writeC {v0 : Val} {ttl0 : Nat} (hop : th.op = .set v0 ttl0) {v : Val} {ttl ver : Nat}
     (hpc : th.pc = .writeC v ttl ver) :
@@ -1012,7 +1013,7 @@ theorem kstep_del_start (hop : th.op = .del) (hpc : th.pc = .start) :
       lock := Or.inr (Or.inl ⟨noCS_done, by simp, fun j t _ ht => hoth j t ht,
         fun hp => by rw [hpe'] at hp; cases hp⟩)
       ck := fun hp => by rw [hpe'] at hp; cases hp
-      facts := by simp [kvFacts, finish, th0, hrv]; try exact hW }
+      facts := by simp [kvFacts, finish, th0, hcv, hrv]; try exact hW }
 
 theorem kstep_del_delP (hop : th.op = .del) {cerr : Bool} (hpc : th.pc = .delP cerr) :
     KStep R init cfg i th (stepThread true R i ft cfg.st (th0 th cfg.now)).st
@@ -1040,7 +1041,7 @@ theorem kstep_del_delP (hop : th.op = .del) {cerr : Bool} (hpc : th.pc = .delP c
       rd := Or.inl hrv
       lock := Or.inr (Or.inl ⟨noCS_done, rfl, hoth, fun _ => Or.inl (by simpa using hcc)⟩)
       ck := fun _ _ _ => Or.inl (by simp)
-      facts := by simp [kvFacts, finish, th0, hinv, hrv]; try exact hW }
+      facts := by simp [kvFacts, finish, th0, hcv, hinv, hrv]; try exact hW }
   · have hfp' : fails ft .persistent = false := by simpa using hfp
     simp only [hfp', Bool.false_eq_true, ↓reduceIte]
     exact {
@@ -1052,7 +1053,7 @@ theorem kstep_del_delP (hop : th.op = .del) {cerr : Bool} (hpc : th.pc = .delP c
         show ((unlock _).cell R.ck).val = none
         rw [cell_unlock, cell_ck_of_p _ _ _ _ _ hck]; exact hcc)⟩)
       ck := fun _ _ _ => Or.inl (by rw [cell_unlock]; exact cell_ck_of_p _ _ _ _ _ hck)
-      facts := by simp [kvFacts, finish, th0, hinv, hrv]; try exact hW }
+      facts := by simp [kvFacts, finish, th0, hcv, hinv, hrv]; try exact hW }
 end
 
 
@@ -1270,11 +1271,12 @@ theorem obsOf_ths (R : Route) (cfg : Cfg) : (obsOf R cfg).ths = cfg.threads.map 
 
 def initCand (init : Option Val) : Cand := ⟨init, 0, some 0⟩
 
-theorem candOf_writer {t : Thread} (hw : isW t.op) {a : Nat} (ha : t.inv = some a) (ha1 : 1 ≤ a) :
+theorem candOf_writer {t : Thread} (hw : isW t.op) {a : Nat} (ha : t.inv = some a) (ha1 : 1 ≤ a)
+    (hne : t.res ≠ some .err) :
     candOf (toObs t) = some ⟨wval t.op, a, okRet (toObs t)⟩ := by
   unfold candOf toObs
   have : (a == 0) = false := by simp; omega
-  rcases hw with ⟨v, tt, hop⟩ | hop <;> simp [ha, hop, wval, this]
+  rcases hw with ⟨v, tt, hop⟩ | hop <;> simp [ha, hop, wval, this, hne]
 
 theorem cand_cases {init : Option Val} {ths : List Thread} {w' : Cand}
     (h : w' ∈ cands init (ths.map toObs)) :
@@ -1294,7 +1296,7 @@ theorem cand_cases {init : Option Val} {ths : List Thread} {w' : Cand}
     · simp only [h0] at hc
       have h0' : t.inv.getD 0 ≠ 0 := by simpa using h0
       cases hop : t.op <;> simp [hop] at hc
-      · exact ⟨Or.inl ⟨_, _, rfl⟩, h0', by rw [← hc]; simp [wval, toObs, hop]⟩
+      · exact ⟨Or.inl ⟨_, _, rfl⟩, h0', by rw [← hc.2]; simp [wval, toObs, hop]⟩
       · exact ⟨Or.inr rfl, h0', by rw [← hc]; simp [wval, toObs, hop]⟩
 
 theorem okRet_some {t : Thread} {b : Nat} (h : okRet (toObs t) = some b) :
@@ -1368,7 +1370,12 @@ theorem explain {R : Route} {init : Option Val} {cfg : Cfg} (h : FInv R init cfg
         | some aw => exact ⟨aw, rfl⟩
     obtain ⟨aw, haw⟩ := hinvsome
     have haw1 : 1 ≤ aw := ((h.time j t hj).1 aw haw).1
-    have hcand := candOf_writer hW haw haw1
+    have hnerr : t.res ≠ some .err := by
+      have hf := h.facts j t hj
+      unfold kvFacts at hf
+      intro herr
+      cases hpc : t.pc <;> simp [hpc, hcv, herr] at hf
+    have hcand := candOf_writer hW haw haw1 hnerr
     have hmem : (⟨wval t.op, aw, okRet (toObs t)⟩ : Cand) ∈ cands init (cfg.threads.map toObs) := by
       unfold cands
       refine List.mem_cons_of_mem _ (List.mem_filterMap.2 ⟨toObs t, ?_, hcand⟩)
@@ -1461,7 +1468,7 @@ theorem readOk_thread {R : Route} {init : Option Val} {cfg : Cfg} (h : FInv R in
     cases hrvv : t.rver with
     | some m => exact ⟨m, rfl⟩
     | none =>
-      rcases hf.2.2.2 hrvv with hw | he
+      rcases hf.2.2.2.1 hrvv with hw | he
       · rcases hop with hop | hop <;> rcases hw with ⟨_, _, hw⟩ | hw <;> rw [hop] at hw <;> cases hw
       · exact absurd he hne
   unfold readOk toObs
